@@ -272,6 +272,7 @@ def strip_for(module, trace):
         evs.append(d)
     cfg = {"budget": trace["cfg"].get("budget", 0), "kind": trace["cfg"].get("kind", "fs")}
     if module == "TraceRo":
+        cfg["damaged"] = bool(trace["cfg"].get("damage"))
         keep_pre = {"op", "f", "h", "mid", "v", "mk", "b", "exc"}
         cfg["pre"] = [{k: v for k, v in e.items() if k in keep_pre} for e in trace["cfg"].get("pre", [])]
     return {"cfg": cfg, "ev": evs}
@@ -386,6 +387,10 @@ def run(prop, tier):
             for i in range(nro):
                 c = {"kind": "fs", "budget": [0, 300][i % 2], "sepmeta": (i % 4 >= 2), "reopen_ro": True,
                      "ro_via_config": [False, False, True, "arg_over_config"][(i // 4) % 4]}
+                if i % 5 == 4:
+                    # what a writer that died left behind: one pointer file of the store cut short (empty, or a few bytes); what
+                    # the calls then answer is not the subject here, only that nothing is written through the read-only backend
+                    c["damage"] = 1 + i // 5
                 pre = random_ops(r, 14, weak=False, wd_p=0)     # (the open C05 finding on with-data metadata is not C19's subject)
                 ops = random_ops(r, 25, weak=False)
                 jobs.append({"cfg": c, "pre": pre, "ops": ops, "id": "ro"})
